@@ -164,6 +164,31 @@ func C15(ctx *core.Ctx) int {
 	return ctx.Finish("exploration", cov)
 }
 
+// reachedVia says how the root packet reaches a nested packet: through a match on a key of some type, or as an object member.
+func reachedVia(r *wire.RProgram, owner string) string {
+	for _, f := range r.Root.Fields {
+		switch f.Kind {
+		case wire.KMatch:
+			for _, row := range f.Table {
+				if row.Packet == owner {
+					if key := r.Root.FieldByName(f.KeyName); key != nil {
+						k := key.Kind.String()
+						if key.Type != "" {
+							k = key.Type
+						}
+						return ", payload of a match on a " + k + " key"
+					}
+				}
+			}
+		case wire.KObj:
+			if f.Packet != nil && f.Packet.Name == owner {
+				return ", object member"
+			}
+		}
+	}
+	return ""
+}
+
 func lastRootKind(pc *ProgCase) string {
 	fs := pc.R.Root.Fields
 	if len(fs) == 0 {
@@ -218,7 +243,7 @@ func c15Compare(pc *ProgCase, enc *wire.Encoding, s *luai.Session) string {
 			kind = "repeated " + kind
 		}
 		if sp.Owner != pc.R.Root.Name {
-			kind += " (in a nested packet)"
+			kind += " (in a nested packet" + reachedVia(pc.R, sp.Owner) + ")"
 		}
 		for _, o := range enc.Layout {
 			if o.What == "object" && o.Off+o.Len <= sp.Off && !(o.Off == sp.Off && o.Len == 0) {
